@@ -832,4 +832,38 @@ def standin_import_dag(tier, seed):
     return dict(name='import_dag_invocations', bound=bound, cases=len(jobs), status='ok')
 
 
-STANDINS = [standin_generated_orders, standin_recursive_dirs, standin_import_dag]
+
+def standin_missing_files(tier, seed):
+    """A file named on the command line that does not exist (never existed, a dangling symbolic link, a directory entry removed) does not
+    build: it is reported FAIL, the process exits non-zero, and the other files keep their verdicts - wherever it stands in the list."""
+    work = tempfile.mkdtemp(prefix='verif_c13m_')
+    n = 0
+    bound = 'a missing file / a dangling symlink at every place among 0..2 passing files, named relative and absolute'
+    try:
+        for k in range(2):
+            open(os.path.join(work, 'good%d_test.ucg' % k), 'w').write('assert {ok = true, desc = "good%d holds"};\n' % k)
+        os.symlink(os.path.join(work, 'gone', 'x_test.ucg'), os.path.join(work, 'dangling_test.ucg'))
+        for missing in ('nothere_test.ucg', 'dangling_test.ucg', os.path.join(work, 'abs_nothere_test.ucg'), 'sub/nothere_test.ucg'):
+            for goods in ([], ['good0_test.ucg'], ['good0_test.ucg', 'good1_test.ucg']):
+                for pos in range(len(goods) + 1):
+                    args = goods[:pos] + [missing] + goods[pos:]
+                    rc, so, se = R.run_ucg(['test'] + args, work)
+                    n += 1
+                    out = so + se
+                    how = '`ucg test %s` in a directory holding only good0_test.ucg, good1_test.ucg and a dangling symlink dangling_test.ucg' % ' '.join(args)
+                    if rc == 0:
+                        return dict(name='missing_files', bound=bound, cases=n, status='violation', detail='%s does not exist, yet the run exits 0' % missing,
+                                    input=dict(source={'good0_test.ucg': 'assert {ok = true, desc = "good0 holds"};'}, expected='exit status != 0 and `%s - FAIL`' % missing, observed='rc=0 ' + out[-400:], how=how))
+                    if not re.search(r'(?m)^%s - FAIL\s*$' % re.escape(missing), out):
+                        return dict(name='missing_files', bound=bound, cases=n, status='violation', detail='%s does not exist and is not reported FAIL' % missing,
+                                    input=dict(source={}, expected='a line `%s - FAIL`' % missing, observed=out[-500:], how=how))
+                    for g in goods:
+                        if not re.search(r'(?m)^%s - PASS\s*$' % re.escape(g), out):
+                            return dict(name='missing_files', bound=bound, cases=n, status='violation', detail='%s passes alone but is not reported PASS next to the missing %s' % (g, missing),
+                                        input=dict(source={}, expected='a line `%s - PASS`' % g, observed=out[-500:], how=how))
+    finally:
+        shutil.rmtree(work, ignore_errors=True)
+    return dict(name='missing_files', bound=bound, cases=n, status='ok')
+
+
+STANDINS = [standin_missing_files, standin_generated_orders, standin_recursive_dirs, standin_import_dag]
